@@ -321,8 +321,25 @@ class _Quiet:
         setattr(self._c, k, v)
 
 
+def ris_rule(ctx, w, S, R):
+    """S7: after a full reset nothing is saved on either screen."""
+    ctx.rule("S7", "RIS resets BOTH saved contexts (the active screen's and the parked one) to the default context on every path")
+    for h in w.handler("Ris"):
+        must = w.mustwrite.must(h)
+        for fld in (R["saved_ctx"], R["parked_saved_ctx"]):
+            ok = ("arg1", fld) in must or ("arg1",) in must
+            ctx.check(ok, "S7", "%s:%s" % (h, fld), "the reset %s does not reset `%s` on every path: a cursor saved before the reset can be restored after it" % (h, fld), loc=w.fn_loc(h),
+                      sample={"handler": h, "field": fld})
+            for f2, pt, p, t in w.assign_sites(set(w.handler_reach("Ris")), lambda p: p == ("arg1", fld)):
+                t = WD.strip_names(t)
+                okv = t[0] == "call" and t[1].endswith("Default>::default") and R["saved_ctx_ty"] in t[1]
+                ctx.check(okv, "S7", "%s:%s:value" % (f2, fld), "%s sets `%s` to %s instead of the default context" % (f2, fld, w.tstr(f2, t)[:80]), loc=w.stmt_loc(f2, pt))
+    ctx.floor("S7", 2, "saved contexts reset by RIS")
+
+
 def run(ctx, w, embedded=False):
     _run(ctx, w, embedded)
+    ris_rule(ctx, w, shared.screen(w), shared.roles(w))
     if not embedded:
         from rules import c03
         shared.embed(ctx, w, c03.dispatch_rules)
